@@ -64,7 +64,7 @@ HINT_XML = ('<t:own xmlns:t="urn:T" xmlns:xsi="http://www.w3.org/2001/XMLSchema-
 
 
 def target_xsd(mech, ver):
-    if mech in ("import", "hint"):
+    if mech in ("import", "hint", "locations"):
         return (f'<xs:schema xmlns:xs="{cm.XS}" targetNamespace="urn:B"><xs:element name="tgt" type="xs:string"/>'
                 f'</xs:schema>')
     return (f'<xs:schema xmlns:xs="{cm.XS}" targetNamespace="urn:T" xmlns:t="urn:T">'
@@ -75,7 +75,7 @@ def target_xsd(mech, ver):
 
 def main_xsd(mech, loc):
     loc = loc.replace("&", "&amp;")
-    if mech == "hint":          # no reference in the schema: the instance brings the location
+    if mech in ("hint", "locations"):   # no reference in the schema: the instance / the locations argument brings it
         return (f'<xs:schema xmlns:xs="{cm.XS}" targetNamespace="urn:T" xmlns:t="urn:T">'
                 f'<xs:element name="own"><xs:complexType><xs:sequence><xs:element name="kid" type="xs:string" '
                 f'form="qualified"/><xs:any namespace="##other" '
@@ -129,6 +129,8 @@ def one_load(rec, ver, allow, main, mech, loc, src, base, explicit):
         kwargs["base_url"] = os.path.join(base, "sand")
     if mech == "mapper":
         kwargs["uri_mapper"] = lambda uri: loc if uri.endswith("virtual.xsd") else uri
+    if mech == "locations":
+        kwargs["locations"] = {"urn:B": loc}
     del _events[:]
     cls = cm.schema_class(ver)
     schema = err = None
@@ -136,6 +138,15 @@ def one_load(rec, ver, allow, main, mech, loc, src, base, explicit):
         with warnings.catch_warnings():
             warnings.simplefilter("ignore")
             schema = cls(src, **kwargs)
+            if mech == "locations":     # the namespace is needed when validation meets b:tgt under the wildcard
+                xml = HINT_XML.replace(' xsi:schemaLocation="urn:B {loc}"', "")
+                if main == "inside":
+                    doc = os.path.join(base, "sand", "doc.xml")
+                    with open(doc, "w") as f:
+                        f.write(xml)
+                    schema.is_valid(doc)
+                else:
+                    schema.is_valid(xml)
             if mech == "hint":
                 xml = HINT_XML.format(loc=loc.replace("&", "&amp;"))
                 if main == "inside":        # the instance lives in the sandbox directory too
@@ -174,7 +185,7 @@ def one_load(rec, ver, allow, main, mech, loc, src, base, explicit):
         if "ref" in loaded:
             return f"permitted reference but the schema was refused: {str(err)[:160]}"
         return None
-    ns = "urn:B" if mech in ("import", "hint") else "urn:T"
+    ns = "urn:B" if mech in ("import", "hint", "locations") else "urn:T"
     has = ("{%s}tgt" % ns) in schema.maps.elements
     if has != ("ref" in loaded):
         return (f"declarations of the referenced document present={has}, spec loaded="
@@ -208,6 +219,8 @@ def judge(job):
                 sp = "absolute"     # a mapper returns complete locations
             if mech == "hint" and sp in ("relative", "dotted", "encoded"):
                 sp = "fileurl"      # a hint in a document supplied as text has nothing to be relative to
+            if mech == "locations" and sp in ("dotted", "encoded"):
+                sp = "relative"
             loc = location(ref["class"], sp, base)
             src = os.path.join(base, "sand", "main.xsd")
             with open(src, "w") as f:
@@ -215,7 +228,7 @@ def judge(job):
         else:
             # a remote main document: relative references stay remote, local targets need a file URL
             if ref["class"] == "remote":
-                loc = "inc.xsd" if (ref["spelling"] in ("relative", "dotted") and mech != "hint") \
+                loc = "inc.xsd" if (ref["spelling"] in ("relative", "dotted") and mech not in ("hint", "locations")) \
                     else location("remote", "absolute", base)
             else:
                 loc = location(ref["class"], "fileurl", base)
@@ -253,7 +266,7 @@ def run(ctx: Ctx):
     ctx.evaluations = ctx.nontrivial = total
     ctx.exhaustive = True
     ctx.rule = ("allow mode (5) x main source class (inside, remote) x mechanism (include, import, redefine, "
-                "override, instance location hint followed during validation, include through a URI mapper) x target class (inside, sibling-with-shared-prefix, outside, remote) x spelling "
+                "override, instance location hint followed during validation, include through a URI mapper, `locations` argument) x target class (inside, sibling-with-shared-prefix, outside, remote) x spelling "
                 "(relative, dotted, absolute, file URL, percent-encoded) as enumerated by TLC, both classes; "
                 "every fetch observed through audit events (open) and a stub opener (remote)")
     ctx.assumptions += ["a fetch that bypasses both builtins.open and urllib would not be observed",
